@@ -27,6 +27,9 @@ type spec struct {
 	// FNP: fail-no-peers is set as well; the script then never lets the number of connected peers
 	// reach zero, so the option must make no difference to re-sending
 	FNP bool `json:"fnp,omitempty"`
+	// Mixed: the socket itself has the opposite kind of retry setting (disabled vs enabled) from the
+	// context under test: each context's own setting decides
+	Mixed bool `json:"mixed,omitempty"`
 }
 
 func TestC04(t *testing.T) {
@@ -41,6 +44,12 @@ func TestC04(t *testing.T) {
 		// enumerate (start x end x retry) cells cyclically, randomise the rest
 		sp := spec{NCtx: 1 + rnd.Intn(3), NPipes: 1 + rnd.Intn(4), RetryMs: retries[i%len(retries)],
 			Start: starts[(i/len(retries))%len(starts)], End: ends[(i/(len(retries)*len(starts)))%len(ends)], Faults: rnd.Intn(5)}
+		if rnd.Intn(3) == 0 && sp.RetryMs < 3600000 {
+			sp.Mixed = true
+			if sp.NCtx < 2 {
+				sp.NCtx = 2 + rnd.Intn(2)
+			}
+		}
 		if sp.Start != "nopipe" && rnd.Intn(3) == 0 {
 			sp.FNP = true
 			if sp.NPipes < 2 {
@@ -99,6 +108,16 @@ func runScript(c *mon.Case, sp spec) {
 		rig.SetAll(mangos.OptionFailNoPeers, true)
 	}
 	fi := c.Rand.Intn(sp.NCtx) // focus context
+	if sp.Mixed {
+		if fi == 0 {
+			fi = 1
+		}
+		other := time.Duration(0)
+		if R == 0 {
+			other = 60 * time.Millisecond
+		}
+		rig.Sock.SetOption(mangos.OptionRetryTime, other) // the socket's own (default) context only
+	}
 	if sp.End == "ctxclose" && fi == 0 {
 		if sp.NCtx == 1 {
 			sp.End = "answer"
@@ -559,7 +578,7 @@ func runScript(c *mon.Case, sp spec) {
 	if len(all) > 1 || canceled {
 		c.Nontrivial()
 	}
-	c.Sig("%s|%s|%s|r%d|tx%d|fnp%v", sp.Start, events, sp.End, sp.RetryMs, len(all), sp.FNP)
+	c.Sig("%s|%s|%s|r%d|tx%d|fnp%v", sp.Start, events, sp.End, sp.RetryMs, len(all), sp.FNP || sp.Mixed)
 }
 
 func endKind(end string, canceled bool) string {
